@@ -548,21 +548,57 @@ def r7_measurements_pass(report, repo, rule='C06-R7'):
               'is any(marginal)')
   f = repo.func(TS, 'PhaseState._measurements_pass')
   g = lib.cfg(f)
-  sets = [n for n in walk_no_nested(f.node) if isinstance(n, ast.Assign) and
-          isinstance(n.value, ast.Set)]
-  ok = len(sets) == 1 and [
-      (dotted(e) or '').split('.')[-1] for e in sets[0].value.elts] == ['PASS']
-  report.check(ok, rule, f.qualname, 'base-set', f.node,
-               'allowed outcomes start as {PASS}')
-  adds = lib.nodes_with_call(g, attr='add')
-  ok = len(adds) == 1 and ends_with(dotted(adds[0][1].args[0]) or '',
-                                    'Outcome.UNSET') and g.dominated_by_edge(
-      adds[0][0], lambda s, l, d: s.kind == 'test' and l == 'T' and
-      dotted(s.ast) == 'CONF.allow_unset_measurements')
-  report.check(ok, rule, f.qualname, 'unset-iff-conf', f.node,
-               'UNSET allowed only when CONF.allow_unset_measurements',
-               'UNSET measurements are accepted without (or regardless of) '
+  # what the allowed-outcome collection contains when the membership test is
+  # made, per value of CONF.allow_unset_measurements (a set that is added to,
+  # or a literal chosen per branch: both are read off the path)
+  def cl_conf(expr, steps):
+    if dotted(expr) == 'CONF.allow_unset_measurements':
+      return 'conf'
+    return None
+
+  seen_rows = []
+
+  def sp_conf(v, p):
+    tests = [(i, n) for i, (n, _) in enumerate(p.steps) if n.kind == 'test' and
+             isinstance(n.ast, ast.Compare) and len(n.ast.ops) == 1 and
+             isinstance(n.ast.ops[0], (ast.In, ast.NotIn)) and
+             (dotted(n.ast.left) or '').endswith('.outcome')]
+    if not tests:
+      return None
+    i, t = tests[0]
+    coll = t.ast.comparators[0]
+    members = None
+    if isinstance(coll, ast.Name):
+      # last literal bound to it before the test, plus .add() calls since
+      for j in range(i - 1, -1, -1):
+        s_ = p.steps[j][0].ast
+        if p.steps[j][0].kind == 'stmt' and isinstance(s_, ast.Assign) and \
+            core.is_name(s_.targets[0], coll.id) and isinstance(
+                s_.value, (ast.Set, ast.Tuple, ast.List)):
+          members = [(dotted(e) or '?').split('.')[-1] for e in s_.value.elts]
+          for k in range(j + 1, i):
+            for c_ in [x for x in p.steps[k][0].subnodes()
+                       if isinstance(x, ast.Call)]:
+              if last_attr(c_) == 'add' and dotted(c_.func.value) == coll.id \
+                  and c_.args:
+                members.append((dotted(c_.args[0]) or '?').split('.')[-1])
+          break
+    elif isinstance(coll, (ast.Set, ast.Tuple, ast.List)):
+      members = [(dotted(e) or '?').split('.')[-1] for e in coll.elts]
+    want = {'PASS'} | ({'UNSET'} if v['conf'] else set())
+    seen_rows.append(v['conf'])
+    if members is None or set(members) != want:
+      return ('allowed outcomes are %s with allow_unset_measurements=%s, '
+              'expected %s' % (members, v['conf'], sorted(want)))
+    return None
+
+  lib.decision_table(report, rule, f, ['conf'], cl_conf, sp_conf)
+  report.check(set(seen_rows) == {True, False}, rule, f.qualname, 'unset-iff-conf',
+               f.node, 'UNSET allowed only when CONF.allow_unset_measurements',
+               'the allowed-outcome test is not reached for both settings of '
                'allow_unset_measurements')
+  sets = [n for n in walk_no_nested(f.node) if isinstance(n, ast.Assign) and
+          isinstance(n.value, (ast.Set, ast.Tuple, ast.List))]
   # canonical quantifier shape (return all(...) and the explicit early-return
   # loop are the same thing here)
   qs = lib.quantifier_loops(g)
@@ -571,13 +607,13 @@ def r7_measurements_pass(report, repo, rule='C06-R7'):
           'self.phase_record.measurements.values', 'self.measurements.values')
   if ok:
     var = dotted(qs[0]['target'])
-    allowed = dotted(sets[0].targets[0]) if sets else None
+    alloweds = {dotted(x.targets[0]) for x in sets}
     cs = qs[0]['conds']
     # the only condition for "return False": the outcome is not in the allowed
     # set (no filter that would exempt some measurements)
     ok = len(cs) == 1 and isinstance(cs[0][0], ast.Compare) and \
         dotted(cs[0][0].left) == (var or '') + '.outcome' and \
-        dotted(cs[0][0].comparators[0]) == allowed and (
+        dotted(cs[0][0].comparators[0]) in alloweds and (
             (isinstance(cs[0][0].ops[0], ast.In) and cs[0][1] is False) or
             (isinstance(cs[0][0].ops[0], ast.NotIn) and cs[0][1] is True))
   report.check(ok, rule, f.qualname, 'all-measurements', f.node,
